@@ -111,6 +111,16 @@ def _has_mapping(v):
     return False
 
 
+def _apo_with_mapping(val):
+    if isinstance(val, model.Obj):
+        return val.cls == 'Ob' and _has_mapping(val.vals['k'])
+    if isinstance(val, list):
+        return any(_apo_with_mapping(x) for x in val)
+    if isinstance(val, dict):
+        return any(_apo_with_mapping(x) for x in val.values())
+    return False
+
+
 def _match_apo_mapping(pair, v):
     """The moved task has, in its upstream closure, a persisted AutoParameterObject argument holding a mapping."""
     if v.clause != 'same-computation-different-location' or 'base' not in pair:
@@ -125,8 +135,7 @@ def _match_apo_mapping(pair, v):
         seen.add(n)
         t = mt[n]
         for p in t.spec['params']:
-            val = t.params[p['name']]
-            if not p.get('ignore') and isinstance(val, model.Obj) and val.cls == 'Ob' and _has_mapping(val.vals['k']):
+            if not p.get('ignore') and _apo_with_mapping(t.params[p['name']]):
                 return True
         todo += [i['target'] for i in t.inputs if i['present']]
     return False
